@@ -14,7 +14,7 @@ import ar_fam
 
 PID = 'C12'
 LEAN_TARGETS = ['Nitime.Props.C12']
-RULE = ('session 3: coefficient / covariance / transfer-function / spectral arrays also as float32, complex64, integer (covariance, nilpotent integer coefficients), big-endian, Fortran-ordered, strided and read-only arrays; n_freqs left at its default; innovation covariances of scale 1e-140..1e140 judged against the same model with the covariance scaled by an exact power of two; poles at radius 0.99 / 0.997; analyzers with criterion-selected order (max_order, criterion given), explicit order with a smaller / None max_order, grids of 1..3 points, default n_freqs, integer / float32 / strided / F-ordered recordings; a perturbation phase (other options, subclass analyzers, results overwritten) followed by a re-run of a sample of the cases on fresh objects; GrangerAnalyzer objects are re-targeted with set_input (same shape / other length / other rate / other channel count) after reading model-derived or causality attributes, and every array / axis read afterwards is judged against the NEW input (the model is fed fresh fit_model results of the input current at each step); every routine is also run in call sequences on the same argument objects (>=3 evaluations in mixed order, results scribbled over, arrays refilled in place; C12: several live analyzers read in interleaved order); cases from one PRNG state: stable bivariate VAR models of order 1..6 (companion spectral radius 0.3..0.92), '
+RULE = ('round 2: coefficient rows that coincide bit for bit (reciprocal, equal diagonals, all equal, identical channels, zero couplings), entries / arrays sharing memory (as_strided), covariance a view of the coefficient array, off-diagonals one cell (L8; op tfs = the same call with the four responses bound to shared objects); refused / failing calls of the five functions then ordinary calls against fresh copies; one analyzer whose first read is refused part-way, vars() compared, then re-targeted (L7); session 3: coefficient / covariance / transfer-function / spectral arrays also as float32, complex64, integer (covariance, nilpotent integer coefficients), big-endian, Fortran-ordered, strided and read-only arrays; n_freqs left at its default; innovation covariances of scale 1e-140..1e140 judged against the same model with the covariance scaled by an exact power of two; poles at radius 0.99 / 0.997; analyzers with criterion-selected order (max_order, criterion given), explicit order with a smaller / None max_order, grids of 1..3 points, default n_freqs, integer / float32 / strided / F-ordered recordings; a perturbation phase (other options, subclass analyzers, results overwritten) followed by a re-run of a sample of the cases on fresh objects; GrangerAnalyzer objects are re-targeted with set_input (same shape / other length / other rate / other channel count) after reading model-derived or causality attributes, and every array / axis read afterwards is judged against the NEW input (the model is fed fresh fit_model results of the input current at each step); every routine is also run in call sequences on the same argument objects (>=3 evaluations in mixed order, results scribbled over, arrays refilled in place; C12: several live analyzers read in interleaved order); cases from one PRNG state: stable bivariate VAR models of order 1..6 (companion spectral radius 0.3..0.92), '
         'with and without zeroed cross-couplings, diagonal and correlated positive-definite innovation covariances, '
         'n_freqs of both parities; covariance scales 1e-12..1e4; analyzer runs on simulated 3..4-channel data with explicit ij lists in random order, '
         'reversed pairs and the default list; distinct = distinct protocol line')
@@ -23,6 +23,9 @@ ASSUMPTIONS = ['det A(ω) ≠ 0 on the grid (true for stable models; generated m
                'exactly the hypotheses under which the code\'s logarithms are finite',
                'GrangerAnalyzer.frequencies (Nyquist-inclusive get_freqs) vs the freqz grid is a C05 clause; here values are compared bin by bin and the axis mismatch is reported under the key analyzer/frequencies/*']
 TRUSTED_EXTRA = [
+    'op tfs: which of the four response arrays inside transfer_function_xy are one object cannot be observed from outside; the harness passes the maximal sharing the coefficient rows allow (bit-equal rows -> one object, what a coefficient-keyed memo would hand out) and `transfer_function_value_independent_of_sharing` shows the value is the same for every valid binding',
+    'round 2 failure histories: the instance-dict comparison (`ar_fail.vars_delta`) treats attributes that are declared one-time properties as allowed to appear after a refused read; writes reaching the instance through other aliases of `self`, base classes or descriptors other than `OneTimeProperty` are seen by the run-time comparison but not by the translator (`Generated/GrangerAttrs.lean` looks at the methods of class GrangerAnalyzer only)',
+   
     'Float (complex binary64) instance of the Scalar-polymorphic model approximates the ℂ instance the theorems are about (unproved; bounded by the 1e-9 comparison)',
     'scipy.signal.freqz(b, 1, worN=n, whole=False[, include_nyquist]) modelled as the polynomial in exp(-1j·w_k); grid options are GENERATED from freq_response by harness/translate_c10.py',
     'numpy element-wise arithmetic along the frequency axis modelled per bin; np.log by Float.log / Real.log of the same ratio',
